@@ -9,6 +9,7 @@ import (
 	"reflect"
 	"strconv"
 	"strings"
+	"time"
 
 	stackage "github.com/JesseCoretta/go-stackage"
 )
@@ -360,3 +361,66 @@ func init() {
 		return root, lim
 	}
 }
+
+// ---- Reveal ---------------------------------------------------------------------
+
+func init() {
+	evaluators["reveal"] = func(in Node, _ any) any {
+		root, _ := stackage.ConvertStack(BuildNode(in))
+		done := make(chan any, 1)
+		go func() {
+			defer func() {
+				if r := recover(); r != nil {
+					done <- map[string]any{"PANIC": fmt.Sprint(r)}
+				}
+			}()
+			root.Reveal()
+			done <- nil
+		}()
+		select {
+		case r := <-done:
+			if r != nil {
+				return r
+			}
+		case <-timeAfter(2):
+			return map[string]any{"DEADLOCK": "Reveal did not return within 2s"}
+		}
+		return ProjectShape(root)
+	}
+	treeGenerators["reveal"] = func(g *treeGen) (Node, any) {
+		return g.revStack(0), nil
+	}
+}
+
+func (g *treeGen) revStack(depth int) Node {
+	n := Node{"t": "stk", "k": []string{"AND", "OR", "NOT", "LIST", "AND", "OR"}[g.rng.Intn(6)], "form": "native", "paren": g.rng.Intn(4) == 0, "fold": false,
+		"nspad": false, "lonce": false, "sym": []any{}, "delim": []any{}, "enc": []any{}, "neg": false, "fwd": false,
+		"mtx": g.rng.Intn(3) == 0, "cap": 0}
+	w := []int{0, 1, 1, 1, 2, 2, 3}[g.rng.Intn(7)]
+	kids := []any{}
+	for i := 0; i < w; i++ {
+		r := g.rng.Intn(10)
+		switch {
+		case r < 3 || depth >= g.maxDepth:
+			kids = append(kids, Node{"t": "leaf", "ty": "str", "v": []any{"l", fmt.Sprint(g.rng.Intn(10))}})
+		case r < 8:
+			s := g.revStack(depth + 1)
+			s["form"] = g.form()
+			kids = append(kids, s)
+		default:
+			c := Node{"t": "cnd", "form": g.form(), "kw": []any{"k"}, "op": []string{"Eq", "Ne", "user"}[g.rng.Intn(3)], "paren": g.rng.Intn(4) == 0, "nspad": false, "enc": []any{}}
+			if g.rng.Intn(2) == 0 {
+				c["ex"] = Node{"t": "leaf", "ty": "str", "v": []any{"v"}}
+			} else {
+				s := g.revStack(depth + 1)
+				s["form"] = g.form()
+				c["ex"] = s
+			}
+			kids = append(kids, c)
+		}
+	}
+	n["e"] = kids
+	return n
+}
+
+func timeAfter(sec int) <-chan time.Time { return time.After(time.Duration(sec) * time.Second) }
